@@ -102,7 +102,7 @@ Judge(ev, exp, opname, endsExecution) ==
     ELSE \* accepted
         IF ev.ok /\ Mismatch(exp, ev) = {} /\ (exp.done => (ev.err = "OK" \/ "err" \notin SetOf(cur.cmp)))
         THEN /\ sess' = exp /\ cov' = cov \cup {<<opname, "ok">>}
-             /\ mode' = IF endsExecution \/ exp.done THEN "skip" ELSE "run"
+             /\ mode' = IF endsExecution \/ (exp.done /\ ~cur.hist) THEN "skip" ELSE "run"
              /\ stats' = IF exp.done THEN Bump("finished") ELSE stats
              /\ UNCHANGED <<divs, cur>>
         ELSE /\ divs' = Append(divs, Div("state after command", [op |-> opname, fields |-> IF ev.ok THEN Mismatch(exp, ev) ELSE {"ok"},
@@ -111,6 +111,12 @@ Judge(ev, exp, opname, endsExecution) ==
 
 DoRun(ev) ==
     IF ev.e = "Step" THEN Judge(ev, IF cur.hist THEN StepH(sess) ELSE Step(sess), NextOpName(sess), FALSE)
+    ELSE IF ev.e = "StepAtEnd" THEN
+        \* the tool refuses to step a finished session; that is only right if the session IS finished, and nothing may change
+        (IF sess.done /\ Mismatch(sess, ev) = {} THEN /\ cov' = cov \cup {<<"step", "refused-at-end">>} /\ UNCHANGED <<divs, sess, cur, mode, stats>>
+         ELSE /\ divs' = Append(divs, Div("step refused as 'at end' but the session is not finished (or state changed)",
+                                          [fields |-> Mismatch(sess, ev), exp |-> Show(sess)], ev))
+              /\ mode' = "skip" /\ UNCHANGED <<cov, sess, cur, stats>>)
     ELSE IF ev.e = "Run" THEN Judge(ev, Continue(sess), "run", TRUE)
     ELSE IF ev.e = "Exec" THEN
         LET a == AssembleExec(ev.toks)
@@ -154,9 +160,9 @@ Finished == l = Len(Tr) + 1
 WriteResult == Finished => ndJsonSerialize(OutFile, <<Result>>)
 \* the spec's own invariants, evaluated at every state of every implementation trace
 TypeOK == /\ mode \in {"idle", "await", "run", "skip"}
-          /\ (mode = "run" => /\ sess.vm.status = "running"
+          /\ (mode = "run" => /\ sess.vm.status \in {"running", "ok"}
                               /\ Len(sess.vm.stack) + Len(sess.vm.alt) <= RealLimits.stack
                               /\ sess.vm.pc <= Len(sess.ctx.script)
                               /\ sess.vm.cbegin <= sess.vm.pc
-                              /\ Len(sess.hist) <= sess.seq)
+                              /\ Len(sess.hist) <= sess.seq + 1)
 =============================================================================
